@@ -1,6 +1,7 @@
 """Pandera configuration."""
 
 import os
+import threading
 from contextlib import contextmanager
 from copy import copy
 from dataclasses import dataclass
@@ -70,7 +71,22 @@ def _config_from_env_vars():
 
 # this config variable should be accessible globally
 CONFIG = _config_from_env_vars()
-_CONTEXT_CONFIG = copy(CONFIG)
+
+
+class _ContextConfig(threading.local):
+    """Context configuration, local to each thread.
+
+    ``config_context`` blocks entered by one thread (pandera itself enters one
+    on every polars validation) must not leak into validations running
+    concurrently in other threads.
+    """
+
+    def __init__(self):
+        super().__init__()
+        self.config = copy(CONFIG)
+
+
+_CONTEXT_CONFIG = _ContextConfig()
 
 
 @contextmanager
@@ -84,14 +100,15 @@ def config_context(
     _outer_config_ctx = get_config_context(validation_depth_default=None)
 
     try:
+        _context_config = _CONTEXT_CONFIG.config
         if validation_enabled is not None:
-            _CONTEXT_CONFIG.validation_enabled = validation_enabled
+            _context_config.validation_enabled = validation_enabled
         if validation_depth is not None:
-            _CONTEXT_CONFIG.validation_depth = validation_depth
+            _context_config.validation_depth = validation_depth
         if cache_dataframe is not None:
-            _CONTEXT_CONFIG.cache_dataframe = cache_dataframe
+            _context_config.cache_dataframe = cache_dataframe
         if keep_cached_dataframe is not None:
-            _CONTEXT_CONFIG.keep_cached_dataframe = keep_cached_dataframe
+            _context_config.keep_cached_dataframe = keep_cached_dataframe
 
         yield
     finally:
@@ -100,9 +117,7 @@ def config_context(
 
 def reset_config_context(conf: Optional[PanderaConfig] = None):
     """Reset the context configuration to the global configuration."""
-    # pylint: disable=global-statement
-    global _CONTEXT_CONFIG
-    _CONTEXT_CONFIG = copy(conf or CONFIG)
+    _CONTEXT_CONFIG.config = copy(conf or CONFIG)
 
 
 def get_config_global() -> PanderaConfig:
@@ -116,7 +131,7 @@ def get_config_context(
     ] = ValidationDepth.SCHEMA_AND_DATA,
 ) -> PanderaConfig:
     """Gets the configuration context."""
-    config = copy(_CONTEXT_CONFIG)
+    config = copy(_CONTEXT_CONFIG.config)
 
     if config.validation_depth is None and validation_depth_default:
         config.validation_depth = validation_depth_default
